@@ -1388,6 +1388,34 @@ func c01R4(c *Ctx) {
 			graphCall = call
 		}
 	}
+	// the tail of Copy may be a table of step closures (install hooks; copy): the steps are Copy's straight-line code
+	var stepView *c01StepView
+	prepStep, graphStep := -1, -1
+	if prepCall == nil && graphCall == nil {
+		for _, sv := range c01StepViews(Copy) {
+			sv := sv
+			for i, S := range sv.Fns {
+				if S == nil {
+					continue
+				}
+				for _, call := range Calls(S, func(string) bool { return true }) {
+					g := StaticCallee(call)
+					if g == nil || !inModule(g) {
+						continue
+					}
+					if c01ReachesFieldStore(g, skipped, 3, map[*ssa.Function]bool{}) {
+						prepCall, prepStep, stepView = call, i, &sv
+					}
+					if graphFns[g] {
+						graphCall, graphStep = call, i
+					}
+				}
+			}
+		}
+		if stepView != nil && (prepStep < 0 || graphStep < 0 || prepStep >= graphStep) {
+			prepCall, graphCall = nil, nil
+		}
+	}
 	if prepCall == nil || graphCall == nil {
 		c.LostAnchor(R, "in ~.Copy: the hook-installing helper (stores CopyGraphOptions.OnCopySkipped) and the graph copy (parent of the traversal closure)")
 		return
@@ -1405,6 +1433,9 @@ func c01R4(c *Ctx) {
 		return
 	}
 	okA, detA := c01RefDefault(Copy, prepCall.Common().Args[refIdx], srcRef, dstRef)
+	if stepView != nil {
+		okA, detA = c01CellRefDefault(Copy, prepCall.Common().Args[refIdx], stepView.Loop.Call, srcRef, dstRef)
+	}
 	c.Check(R, "~.Copy|reference-default", prepCall.Pos(), okA, detA)
 	// (d) the root prepared, copied and returned is one value and includes MapRoot's result
 	var prepRoot, graphRoot ssa.Value
@@ -1418,17 +1449,42 @@ func c01R4(c *Ctx) {
 			graphRoot = a
 		}
 	}
-	okD := prepRoot != nil && graphRoot != nil && c01SameStrip(prepRoot, graphRoot)
+	okD := prepRoot != nil && graphRoot != nil && c01SameNode(prepRoot, graphRoot)
 	nSucc := 0
 	for _, r := range Returns(Copy) {
 		if c01IsErrorReturn(r, 1) {
 			continue
 		}
 		nSucc++
-		if !c01SameStrip(r.Results[0], prepRoot) {
+		if !c01SameNode(r.Results[0], prepRoot) {
 			okD = false
 		}
+		if stepView != nil {
+			// both steps ran: the table was exhausted, and a failing step ends Copy with an error
+			if !MustPass(r, newCut().Edges(stepView.Loop.Done)) {
+				okD = false
+			}
+			if e := ErrOf(stepView.Loop.Call); e == nil {
+				okD = false
+			} else if _, nonNil, _ := NilTests(Copy, Aliases(e)); len(nonNil) == 0 {
+				okD = false
+			} else {
+				for _, ne := range nonNil {
+					if c01SuccessReturnFrom(Copy, ne, nil, nil) != nil {
+						okD = false
+					}
+				}
+			}
+			continue
+		}
 		if !MustPass(r, newCut().Instr(prepCall.(ssa.Instruction))) || !MustPass(r, newCut().Instr(graphCall.(ssa.Instruction))) {
+			okD = false
+		}
+	}
+	if stepView != nil && prepRoot != nil {
+		// the shared root variable is assigned once, before the steps run
+		cell := c01CapturedCell(prepRoot)
+		if cell == nil || cell.Parent() != Copy || len(c01CellStores(cell)) != 1 || !MustPass(stepView.Loop.Call, newCut().Instr(c01CellStores(cell)[0])) {
 			okD = false
 		}
 	}
@@ -1766,6 +1822,9 @@ func c01TagsGivenNode(c *Ctx, R string) {
 		}
 		return false
 	})
+	if len(tags) == 0 && c01TagsViaSteps(c, R, E, srcRef, dstRef) {
+		return // resolve / copy / tag written as a table of step closures
+	}
 	if len(tags) == 0 {
 		all := c01TagEffects(E, func(ssa.Value) bool { return true })
 		det := "ExtendedCopy never tags the node"
